@@ -93,6 +93,63 @@ fn one_slice(rep: &mut Report, rec: &mut Rec, len: usize, a: Option<i64>, b: Opt
     }
 }
 
+/// The slice inside a larger expression: what follows (a projection's right-hand
+/// side, a pipe, a flatten, a filter, a function call) and what precedes it must
+/// not change which elements are selected or their order.
+const CTX_FORMS: &[&str] = &["id", "bar", "flat", "filter", "first", "last", "length", "star", "again"];
+
+fn one_ctx(rep: &mut Report, rec: &mut Rec, form: &str, len: usize, a: Option<i64>, b: Option<i64>, c: Option<i64>) {
+    let step = c.unwrap_or(1);
+    if step == 0 {
+        return;
+    }
+    rep.evaluations += 1;
+    let f = |x: Option<i64>| x.map(|v| v.to_string()).unwrap_or_default();
+    let sl = match c {
+        None => format!("[{}:{}]", f(a), f(b)),
+        Some(s) => format!("[{}:{}:{}]", f(a), f(b), s),
+    };
+    let ints = arr(len);
+    let (doc, text) = match form {
+        "id" => (Value::Array((0..len as i64).map(|i| json!({"id": i, "pad": "x"})).collect()), format!("@{}.id", sl)),
+        "bar" => (json!({"foo": {"bar": ints}}), format!("foo.bar{}", sl)),
+        "flat" => (ints, format!("@{}[]", sl)),
+        "filter" => (ints, format!("@{} | [?@ >= `0`]", sl)),
+        "first" => (ints, format!("@{} | [0]", sl)),
+        "last" => (ints, format!("@{} | [-1]", sl)),
+        "length" => (ints, format!("length(@{})", sl)),
+        "star" => (Value::Array((0..len as i64).map(|i| json!([i])).collect()), format!("@{}[0]", sl)),
+        _ => (ints, format!("@{} | @[::-1] | @[::-1]", sl)),
+    };
+    let got = match guarded(|| jmespath::compile(&text).and_then(|e| e.search(rcvar_of(&doc)))) {
+        Ok(g) => g,
+        Err(p) => {
+            rep.violation(&format!("C07/panic/{}", panic_site(&p)), json!({"expression": text, "len": len, "panic": p}));
+            return;
+        }
+    };
+    let shown = match &got {
+        Ok(v) if v.is_number() || v.is_null() => if v.is_null() { "N".to_string() } else { v.to_string() },
+        _ => show(&got),
+    };
+    let _ = writeln!(rec.out, "P {} {} {} {} {} | {}", form, len, part(a), part(b), part(c), shown);
+    let idx = slice_indices(len as i128, a.map(|x| x as i128), b.map(|x| x as i128), step as i128);
+    let want = match form {
+        "first" => idx.first().map(|i| i.to_string()).unwrap_or_else(|| "N".to_string()),
+        "last" => idx.last().map(|i| i.to_string()).unwrap_or_else(|| "N".to_string()),
+        "length" => idx.len().to_string(),
+        _ => format!("[{}]", idx.iter().map(|i| i.to_string()).collect::<Vec<_>>().join(",")),
+    };
+    if shown == want {
+        rep.count("agree_slice_in_context");
+        if idx.len() > 1 {
+            rep.nontrivial(refimpl::rng::fnv(format!("P {} {} {:?} {:?} {:?}", form, len, a, b, c).as_bytes()));
+        }
+    } else {
+        rep.violation("C07/slice-in-context-differs-from-rule", json!({"expression": text, "len": len, "expected": want, "got": shown}));
+    }
+}
+
 fn one_index(rep: &mut Report, rec: &mut Rec, len: usize, n: i64) {
     rep.evaluations += 1;
     let doc = arr(len);
@@ -134,6 +191,10 @@ pub fn run(args: &Args) {
                         continue;
                     }
                     one_slice(&mut rep, &mut rec, len, *a, *b, *c, (idx % 2) as u8);
+                    if (idx / args.shards) % 3 == 0 {
+                        let form = CTX_FORMS[((idx / args.shards / 3) % CTX_FORMS.len() as u64) as usize];
+                        one_ctx(&mut rep, &mut rec, form, len, *a, *b, *c);
+                    }
                 }
             }
         }
@@ -182,7 +243,14 @@ pub fn run(args: &Args) {
     // (3) random over the whole i32 range
     for i in 0..args.n {
         let mut rng = Rng::derive(args.seed, args.shard + 5000, i);
-        let len = rng.below(65);
+        // mostly short arrays; a few long ones, so that anything keyed on the number of
+        // selected elements (bulk copies, chunking, pre-sized buffers) is crossed as well
+        let len = match rng.below(200) {
+            0 => 300 + rng.below(1300),
+            1..=5 => 65 + rng.below(236),
+            6..=25 => 30 + rng.below(100),
+            _ => rng.below(65),
+        };
         let pick = |rng: &mut Rng| -> Option<i64> {
             match rng.below(6) {
                 0 => None,
@@ -195,6 +263,24 @@ pub fn run(args: &Args) {
         };
         let (a, b, c) = (pick(&mut rng), pick(&mut rng), pick(&mut rng));
         one_slice(&mut rep, &mut rec, len, a, b, c, 1);
+        if i % 3 == 0 {
+            let form = CTX_FORMS[rng.below(CTX_FORMS.len())];
+            one_ctx(&mut rep, &mut rec, form, len, a, b, c);
+        }
+        if len > 64 && i % 2 == 0 {
+            // long runs: bounds strictly inside the array, small strides of either sign
+            let lo = rng.below(len / 4 + 1) as i64;
+            let hi = (len - rng.below(len / 4 + 1)) as i64 - 1;
+            let st = [1i64, -1, 2, -2, 3, -3][rng.below(6)];
+            let (s0, s1) = if st > 0 { (lo, hi) } else { (hi, lo) };
+            let neg = |x: i64, r: &mut Rng| if r.below(3) == 0 { x - len as i64 } else { x };
+            let (s0, s1) = (neg(s0, &mut rng), neg(s1, &mut rng));
+            one_slice(&mut rep, &mut rec, len, Some(s0), Some(s1), Some(st), 1);
+            one_slice(&mut rep, &mut rec, len, Some(s0), None, Some(st), 1);
+            one_slice(&mut rep, &mut rec, len, None, Some(s1), Some(st), 1);
+            let form = CTX_FORMS[rng.below(CTX_FORMS.len())];
+            one_ctx(&mut rep, &mut rec, form, len, Some(s0), Some(s1), Some(st));
+        }
         if i % 4 == 0 {
             let n = pick(&mut rng).unwrap_or(0);
             one_index(&mut rep, &mut rec, len, n);
